@@ -9,25 +9,27 @@ import (
 )
 
 func main() {
+	// Cheap and central groups first, the large sweeps last, so that an
+	// internal deadline cuts the extensions rather than the declared core.
 	all := []vlib.Group{
 		{Name: "dir-topo", Gen: genDirTopo},
 		{Name: "dir-flow", Gen: genDirFlow},
-		{Name: "dir-flow5", Gen: genDirFlow5},
 		{Name: "dir-intervals", Gen: genDirIntervals},
-		{Name: "dir-intervals5", Gen: genDirIntervals5},
 		{Name: "dir-traverse", Gen: genDirTraverse},
 		{Name: "und-topo", Gen: genUndTopo},
-		{Name: "und-traverse", Gen: genUndTraverse},
 		{Name: "und-span", Gen: genUndSpan},
-		{Name: "und-color", Gen: genUndColor},
 		{Name: "und-color-exact", Gen: genUndColorExact},
-		{Name: "und-color-hard", Gen: genUndColorHard},
-		{Name: "dir-big", Gen: genDirBig},
-		{Name: "und-big", Gen: genUndBig},
 		{Name: "product", Gen: genProduct},
 		{Name: "gen-det", Gen: genGenDet},
 		{Name: "gen-rand", Gen: genGenRand},
 		{Name: "findings", Gen: genFindings},
+		{Name: "dir-big", Gen: genDirBig},
+		{Name: "und-big", Gen: genUndBig},
+		{Name: "und-traverse", Gen: genUndTraverse},
+		{Name: "und-color", Gen: genUndColor},
+		{Name: "dir-flow5", Gen: genDirFlow5},
+		{Name: "und-color-hard", Gen: genUndColorHard},
+		{Name: "dir-intervals5", Gen: genDirIntervals5},
 	}
 	// The tomita build tag only changes the pivot choice of
 	// topo.BronKerbosch: that configuration runs the groups that reach it
@@ -187,11 +189,11 @@ func dirFlowCase(t *vlib.T, group, key string, s gspec, onlyRoot int, doInterval
 	t.Detail(s.String())
 }
 
-// forDirected5 enumerates directed graphs on 5 nodes: all of them in the
-// thorough tier, a fixed 1/quickStep sample (bijective scramble of the index) in quick.
-func forDirected5(g *vlib.G, quickStep uint32, f func(key string, s gspec)) {
+// forDirected5 enumerates directed graphs on 5 nodes: a fixed 1/step sample
+// (all of them for step 1), spread by a bijective scramble of the index.
+func forDirected5(g *vlib.G, quickStep, thoroughStep uint32, f func(key string, s gspec)) {
 	const arcs = 20
-	step := vlib.Pick(g, quickStep, uint32(1))
+	step := vlib.Pick(g, quickStep, thoroughStep)
 	for k := uint32(0); k < (1<<arcs)/step; k++ {
 		if g.Stopped() {
 			return
@@ -209,13 +211,13 @@ func forDirected5(g *vlib.G, quickStep uint32, f func(key string, s gspec)) {
 // with root 0 (beyond the declared <=4 bound: the interesting dominator and
 // interval shapes need five nodes).
 func genDirFlow5(g *vlib.G) {
-	forDirected5(g, 16, func(key string, s gspec) {
+	forDirected5(g, 16, 1, func(key string, s gspec) {
 		g.Case(key, func(t *vlib.T) { dirFlowCase(t, "dir-flow5", key, s, 0, false) })
 	})
 }
 
 func genDirIntervals5(g *vlib.G) {
-	forDirected5(g, 64, func(key string, s gspec) {
+	forDirected5(g, 64, 2, func(key string, s gspec) {
 		g.Case(key, func(t *vlib.T) { dirFlowCase(t, "dir-intervals5", key, s, 0, true) })
 	})
 }
